@@ -41,7 +41,7 @@ def main (args : List String) : IO UInt32 := do
   | ["model", "station"] => engineLoop stepStation none inp out; return 0
   | ["model", "prm"] => engineLoop stepPrm none inp out; return 0
   | ["oracle", "C20", o, i] => oracleLoop oracleC20 (none, 0) o i
-  | ["model", "phyrx"] => engineLoop stepPhyRx [] inp out; return 0
+  | ["model", "phyrx"] => engineLoop stepPhyRx {} inp out; return 0
   | ["model", "apps"] => engineLoop (fun (st : AppsState) l => stepApps st (splitWords l)) {} inp out; return 0
   | ["model", "appsfdl"] => engineLoop (fun (st : AppsState) l => stepApps st (splitWords l)) {} inp out; return 0
   | ["oracle", "C18", o, i] => oracleLoop oracleC18 {} o i
